@@ -41,6 +41,26 @@ def step (st : St) (j : Json) : R (St × Json) := do
     let fns ← field j "fns" >>= jList parseFn
     let dim ← fNat j "dim"
     pure ({ st with atab := some (ATable.empty (← fRats j "dx") (← fRats j "base") dim), fns := fns }, Json.str "ok")
+  | "precond" =>
+    -- the decidable hypotheses of the theorems, evaluated on this case
+    match st.tab with
+    | none => throw "no table"
+    | some T =>
+      let calls ← field j "calls" >>= jList (fun c => do
+        let pts ← fRatss c "pts"
+        match (fieldD c "axis" Json.null) with
+        | .null => pure (Query.interp pts)
+        | a => pure (Query.grad pts (← jNat a)))
+      pure (st, obj [("wf", Json.bool (wfB T.axes)),
+                     ("inbox", ofList (fun q => Json.bool (Query.inBoxB T.axes q)) calls),
+                     ("axisok", ofList (fun q => Json.bool (Query.axisOkB T.axes.length q)) calls)])
+  | "aquad_all" =>
+    -- quadrature_points_from_coordinates(x, remove_known_points=False)
+    match st.atab with
+    | none => throw "no adaptive table"
+    | some T =>
+      let q := needed T (← fRatss j "pts")
+      pure (st, obj [("inds", ofList ofInts q), ("coord", ofList ofRats (q.map (coordOf T.basePt T.h)))])
   | "interp" =>
     match st.tab with
     | none => throw "no table"
@@ -80,7 +100,10 @@ def step (st : St) (j : Json) : R (St × Json) := do
       let p := if rev then p0.reverse else p0
       let inds := p.map (fun k => q.getD k [])
       let crd := inds.map (coordOf T.basePt T.h)
-      let T' := if n == 0 then T else assign T (st.fns.map (fun f => crd.map f)) crd inds
+      let noidx := (fieldD j "noidx" (Json.bool false)) == Json.bool true
+      let T' := if n == 0 then T
+        else if noidx then assignNoIdx T (st.fns.map (fun f => crd.map f)) crd
+        else assign T (st.fns.map (fun f => crd.map f)) crd inds
       pure ({ st with atab := some T' },
             obj [("inds", ofList ofInts q), ("coord", ofList ofRats (q.map (coordOf T.basePt T.h)))])
   | "aassign" =>
